@@ -63,7 +63,17 @@ class C18:
                 built.append({"kind": rng.choice(["Text", "Binary", "Ping", "Pong", "Close"]),
                               "len": LENS[(i * 3 + j) % len(LENS)] if rng.random() < 0.7 else rng.randrange(0, 70001),
                               "mask": rng.randrange(2)})
-            yield i, {"seed": rs, "frames": frames, "mode": mode, "cuts": None, "built": built}
+            case = {"seed": rs, "frames": frames, "mode": mode, "cuts": None, "built": built}
+            if rng.random() < 0.3:
+                # a second connection to the same factory, before or interleaved with the first; it may end in the middle of a frame
+                case["neighbour"] = {"how": rng.choice(["before", "interleaved"]),
+                                     "frames": [{"op": rng.choice(["text", "binary"]), "len": rng.choice([0, 3, 40, 126, 300]),
+                                                 "mask": rng.randrange(2 ** 32), "fill": rng.randrange(256)} for _ in range(rng.choice([1, 2, 3]))],
+                                     "partial": rng.choice([0, 0, 1, 3, 7, 30]), "chunk": rng.choice([1, 5, 64, 100000])}
+            if len(frames) >= 2 and rng.random() < 0.15:
+                # the endpoint starts a server side close while client frames are still in flight
+                case["close_at"] = rng.randrange(1, len(frames))
+            yield i, case
 
     @staticmethod
     def payload(f):
@@ -137,16 +147,52 @@ class C18:
         stream = b"".join(enc)
         cuts = self.make_cuts(case, enc)
         vs = []
+        nb = case.get("neighbour")
         with W.WsWorld() as w:
+            chunks = []
+            prev = 0
+            for c in cuts + [len(stream)]:
+                if c > prev:
+                    chunks.append(stream[prev:c])
+                prev = c
+            nconn = None
+            nchunks = []
+            if nb:
+                nenc = [W.ref_encode(W.OPC[f["op"]], self.payload(f), struct_pack_key(f["mask"])) for f in nb["frames"]]
+                nstream = b"".join(nenc)
+                if nb["partial"]:
+                    nstream += W.ref_encode(0x2, b"P" * 200, b"\x01\x02\x03\x04")[: nb["partial"]]
+                nchunks = [nstream[k:k + nb["chunk"]] for k in range(0, len(nstream), nb["chunk"])]
+                nconn = w.connect()
+                nhead = nconn.upgrade()
+                if nconn.opened != 1 or not nhead.startswith(b"HTTP/1.1 101"):
+                    return {"harness_error": "neighbour upgrade failed: %r" % nhead[:80], "violations": []}
+                if nb["how"] == "before":
+                    for ch in nchunks:
+                        nconn.feed(ch)
+                    nchunks = []
             head = w.upgrade()
             if w.opened != 1 or not head.startswith(b"HTTP/1.1 101"):
                 return {"harness_error": "upgrade failed: %r" % head[:80], "violations": []}
-            prev = 0
+            if case.get("close_at"):
+                w.conns[0].close_at = case["close_at"]
             alive = True
-            for c in cuts + [len(stream)]:
-                if c > prev and alive:
-                    alive = w.feed(stream[prev:c])
-                prev = c
+            k = 0
+            while k < len(chunks) or k < len(nchunks):
+                if k < len(nchunks):
+                    nconn.feed(nchunks[k])
+                if k < len(chunks) and alive:
+                    alive = w.feed(chunks[k])
+                k += 1
+            if nb:
+                nexp = [(f["op"].capitalize(), self.payload(f).decode("utf-8") if f["op"] == "text" else self.payload(f)) for f in nb["frames"]]
+                ngot = [(op, bytes(p) if not isinstance(p, str) else p) for op, p in nconn.log]
+                if ngot != nexp or nconn.errors:
+                    vs.append({"kind": "endpoint_log_differs_from_frames_sent", "key": "second-connection:" + nb["how"],
+                               "detail": {"sent": [(f["op"], f["len"]) for f in nb["frames"]], "got": [(op, len(p)) for op, p in ngot[:6]],
+                                          "errors": nconn.errors[:2], "partial": nb["partial"]}})
+            if w.strays:
+                vs.append({"kind": "frame_delivered_for_no_connection", "key": "stray", "detail": [(op, len(p or b"")) for op, p in w.strays[:4]]})
             # ---- oracle 1: endpoint log == frames sent
             expect = []
             for f in frames:
@@ -157,6 +203,10 @@ class C18:
             if got != expect:
                 first = next((k for k, (a, b) in enumerate(zip(got, expect)) if a != b), min(len(got), len(expect)))
                 shape = "coalesced" if inside["coalesced"] and not inside["split"] else "split" if inside["split"] else "aligned"
+                if nb:
+                    shape = "with-second-connection:" + nb["how"]
+                elif case.get("close_at"):
+                    shape = "after-server-side-close"
                 why = "boundary-len" if shape == "aligned" and any(f["len"] in (126, 127, 65535, 65536) or f["len"] > 65535 for f in frames) else shape
                 vs.append({"kind": "endpoint_log_differs_from_frames_sent", "key": why,
                            "detail": {"mode": case["mode"], "sent": [(f["op"], f["len"]) for f in frames], "n_got": len(got),
@@ -166,19 +216,29 @@ class C18:
             wrote = w.written()
             dec, left = W.ref_decode_all(wrote)
             if got == expect:
-                exp_written = [W.ref_encode(0x1, self.payload(f)) for f in frames if f["op"] == "text"]
-                if any(f["op"] == "close" for f in frames):
-                    exp_written.append(None)      # the handler answers a close with its own close frame
-                pos = 0
-                for k, e in enumerate(exp_written):
-                    if e is None:
-                        continue
-                    if wrote[pos:pos + len(e)] != e:
-                        n = len(e) - header_len(len(e), False)
-                        vs.append({"kind": "server_frame_not_rfc6455", "key": "echo:len=%s" % lenkey(len(self.payload([f for f in frames if f['op'] == 'text'][k]))),
-                                   "detail": {"frame": k, "expected_head": e[:12].hex(), "got_head": wrote[pos:pos + 12].hex()}})
-                        break
-                    pos += len(e)
+                # every frame the server wrote is canonical RFC 6455 (unmasked, minimal length form, nothing left over) ...
+                canon = b"".join(W.ref_encode(opc, body, None, fin) for fin, opc, masked, body in dec)
+                if left or canon != wrote or any(masked for _f, _o, masked, _b in dec):
+                    bad = next((k for k in range(min(len(canon), len(wrote))) if canon[k] != wrote[k]), min(len(canon), len(wrote)))
+                    lk = "?"
+                    off = 0
+                    for fin, opc, masked, body in dec:
+                        e = W.ref_encode(opc, body, None, fin)
+                        if off <= bad < off + len(e) + 8:
+                            lk = lenkey(len(body))
+                            break
+                        off += len(e)
+                    vs.append({"kind": "server_frame_not_rfc6455", "key": "echo:len=%s" % lk,
+                               "detail": {"first_bad_byte": bad, "leftover": left, "got_head": wrote[max(0, bad - 4):bad + 12].hex()}})
+                else:
+                    # ... the text echoes are the client's text frames, once each and in order (other frames the server may
+                    # add, e.g. a pong, and its close frames are not this property's business)
+                    texts = [body for fin, opc, masked, body in dec if opc == 0x1]
+                    exp_texts = [self.payload(f) for f in frames if f["op"] == "text"]
+                    if texts != exp_texts:
+                        k = next((k for k, (a, b) in enumerate(zip(texts, exp_texts)) if a != b), min(len(texts), len(exp_texts)))
+                        vs.append({"kind": "server_frame_not_rfc6455", "key": "echo:len=%s" % lenkey(len(exp_texts[k]) if k < len(exp_texts) else 0),
+                                   "detail": {"echo": k, "n_written": len(texts), "n_expected": len(exp_texts)}})
             # ---- oracle 3: the library's frame factories, every boundary length, through writeFrame / readFrame
             for b in case["built"]:
                 v = self.check_built(b)
